@@ -278,6 +278,8 @@ def behaviours(size):
                 pg = op_popget(op)
                 if pg and pg[1] in own.lower():
                     continue  # popping a name the signature already binds is dead code
+                if op[:1] in ("R", "T", "U") and own.isupper() and own:
+                    continue  # taken-and-given-again forms: not also with a required own parameter (budget)
                 out.append((own, op))
     elif size == "mid":
         out = [("", ""), ("a", ""), ("A", ""), ("", "P:a"), ("", "G:a"), ("", "N:a"), ("", "H:a")]
